@@ -7,3 +7,5 @@ import BalmProofs.Props.C11
 #print axioms Balm.constOnB_spec
 #print axioms Balm.perc_mono
 #print axioms Balm.attr_in_percIter
+#print axioms Balm.Impl.percStrict_spec
+#print axioms Balm.Impl.percStrict_order_independent
